@@ -9,6 +9,7 @@ import (
 	"fmt"
 	"os"
 	"path/filepath"
+	"sort"
 	"strconv"
 	"strings"
 	"testing"
@@ -101,6 +102,7 @@ type gExec struct {
 	outcome     vs.Outcome
 	err         error
 	setupErr    error
+	late        []string // probe lines written after Run had returned
 	evs         []pEv
 	events      []vs.Event
 	chunks      []vs.Chunk
@@ -233,6 +235,15 @@ func execG(t *testing.T, ch *vs.Choices, p *gProg, dir string, keepLog bool, par
 				x.blocked = sim.BlockedSites("m")
 			}
 			sim.Drain()
+			if x.outcome == vs.Finished {
+				// whatever is still running after Run has returned shows up while the remaining goroutines are drained
+				for _, l := range sim.Late {
+					if strings.HasPrefix(l, "out|") && (strings.Contains(l, "S|") || strings.Contains(l, "E|")) {
+						x.late = append(x.late, strings.TrimSpace(strings.TrimPrefix(l, "out|")))
+					}
+				}
+				sort.Strings(x.late)
+			}
 		})
 	}()
 	for _, ev := range x.events {
@@ -468,6 +479,10 @@ func runGOne(t *testing.T, ch *vs.Choices, p *gProg, prop string, render bool) *
 	finished := x.outcome == vs.Finished
 	code, class := mapExit(x.err, p.ExitCodeFlag)
 	verdicts := m.check(x.evs, p.Conc, finished, x.err == nil, class, code, x.cancelFired, x.outcome == vs.Deadlock)
+	if len(x.late) > 0 {
+		// Run returns only when every task it started is over: dependencies are joined, calls are synchronous
+		verdicts = append(verdicts, gVerdict{"C02", "commands_still_running_after_run_returned", fmt.Sprintf("Run had returned (%v) but task commands went on writing afterwards: %v", x.err, clipList(x.late, 4))})
+	}
 	switch x.outcome {
 	case vs.Deadlock:
 		verdicts = append(verdicts, gVerdict{"C07", "deadlock|" + deadlockSig(x.blocked), fmt.Sprintf("no goroutine can run and Run has not returned: %v", x.blocked)})
